@@ -66,6 +66,7 @@ static struct thr T[MAXT];
 static int nT, nScen;
 static __thread struct thr *self;
 static __thread int in_rt;
+static __thread int bulk;	/* ds_bulk(): this thread's accesses are not scheduling points and are not buffered */
 static int active;
 static unsigned long ds_step;
 static unsigned long max_steps = 60000;
@@ -283,7 +284,10 @@ static inline void check_access(const void *a, int n, int w)
 	int st = SHADOW_BASE[((const char *)a - ARENA_BASE) / 8];
 	if (st != 1) { in_rt = 1; heap_violation(a, n, w, st); }
 }
-void *__wrap_malloc(size_t n) { if (in_rt || !self) return __real_malloc(n); return arena_alloc(n, 16, __builtin_return_address(0)); }
+/* malloc/realloc/posix_memalign memory is indeterminate: the arena hands out junk (0xa5..), never the zeroes a fresh mapping happens to hold, so code that
+ * relies on recycled memory being clear behaves as it would in a long-running process */
+#define JUNK 0xa5
+void *__wrap_malloc(size_t n) { if (in_rt || !self) return __real_malloc(n); void *p = arena_alloc(n, 16, __builtin_return_address(0)); memset(p, JUNK, n); return p; }
 void *__wrap_calloc(size_t a, size_t b) { if (in_rt || !self) return __real_calloc(a, b); void *p = arena_alloc(a * b, 16, __builtin_return_address(0)); memset(p, 0, a * b); return p; }
 void __wrap_free(void *p) { if (!p) return; if (!in_arena(p)) { __real_free(p); return; } int was = in_rt; in_rt = 1; arena_free(p, __builtin_return_address(0)); in_rt = was; }
 void *__wrap_realloc(void *p, size_t n)
@@ -291,10 +295,11 @@ void *__wrap_realloc(void *p, size_t n)
 	if (p && !in_arena(p)) return __real_realloc(p, n);
 	if (in_rt || !self) return __real_realloc(p, n);
 	void *q = arena_alloc(n, 16, __builtin_return_address(0));
+	memset(q, JUNK, n);
 	if (p) { struct ahdr *h = (struct ahdr *)((char *)p - sizeof(struct ahdr)); memcpy(q, p, h->size < n ? h->size : n); __wrap_free(p); }
 	return q;
 }
-int __wrap_posix_memalign(void **out, size_t al, size_t n) { if (in_rt || !self) return __real_posix_memalign(out, al, n); *out = arena_alloc(n, al, __builtin_return_address(0)); return 0; }
+int __wrap_posix_memalign(void **out, size_t al, size_t n) { if (in_rt || !self) return __real_posix_memalign(out, al, n); *out = arena_alloc(n, al, __builtin_return_address(0)); memset(*out, JUNK, n); return 0; }
 
 /* ---- store buffer ---- */
 static void mem_store(uintptr_t addr, int size, uint64_t val)
@@ -413,7 +418,7 @@ static inline int tmatch(struct thr *t, int tid) { return tid >= 0 ? (!t->daemon
 static void sched_point(void)
 {
 	struct thr *me = self;
-	if (!active || !me || in_rt) return;
+	if (!active || !me || in_rt || bulk) return;
 	in_rt = 1;
 	ds_step++; me->lsteps++; me->op_pts++;
 	check_progress();
@@ -457,6 +462,17 @@ static void yield_hint(void)
 	in_rt = 0;
 }
 void ds_yield(void) { yield_hint(); }
+/* bulk mode: the calling thread runs a long, uninteresting stretch of library calls (tens of thousands of nested rcu_read_lock()) as one scheduling
+ * step: its buffered stores are drained, then its accesses go straight to memory and are no scheduling points until ds_bulk(0). Wrapped calls (futex,
+ * mutex) keep their simulated behaviour; if one blocks, other threads run as usual. The executions explored are those in which the thread is not
+ * preempted inside the stretch. */
+void ds_bulk(int on)
+{
+	struct thr *me = self;
+	if (!active || !me || in_rt) return;
+	if (on) { sched_point(); in_rt = 1; sb_drain(me); in_rt = 0; bulk = 1; }
+	else bulk = 0;
+}
 void urcu_verif_cpu_relax(void) { yield_hint(); }
 int ds_solo_active(void) { return solo_on; }
 static unsigned long solo_s0, solo_y0;
@@ -615,7 +631,7 @@ static void atomic_store_common(volatile void *a, int size, uint64_t v, int mo)
 		sched_point();
 		check_access((const void *)a, size, 1);
 		in_rt = 1;
-		int delay = (mo != __ATOMIC_SEQ_CST) ? store_delay(me) : (me->nstores++, 0);
+		int delay = (mo != __ATOMIC_SEQ_CST && !bulk) ? store_delay(me) : (me->nstores++, 0);
 		if (me->sbn || delay) {
 			if (me->sbn == SBMAX) sb_flush_one(me);
 			struct sbent *e = &me->sb[me->sbn++];
@@ -822,7 +838,8 @@ int __wrap_open(const char *path, int fl, ...)
 	va_list ap; va_start(ap, fl); int mode = va_arg(ap, int); va_end(ap);
 	if (!strcmp(path, "/sys/devices/system/cpu/possible")) {
 		int fd = memfd_create("possible", 0);
-		(void) !write(fd, ncpus == 2 ? "0-1\n" : "0\n", ncpus == 2 ? 4 : 2); lseek(fd, 0, SEEK_SET);
+		char b[16]; int n = ncpus >= 2 ? snprintf(b, sizeof b, "0-%d\n", ncpus - 1) : snprintf(b, sizeof b, "0\n");
+		(void) !write(fd, b, (size_t)n); lseek(fd, 0, SEEK_SET);
 		return fd;
 	}
 	return __real_open(path, fl, mode);
